@@ -38,8 +38,10 @@ def main():
         caught, errors = {}, []
         try:
             ev = tempfile.mkdtemp(prefix='seeded_ev_')
-            for pid in props:
-                rc, out = sh('%s check %s --tier quick --evidence-dir %s' % (PY, pid, ev), cwd=VERIF, timeout=600)
+            from concurrent.futures import ThreadPoolExecutor
+            with ThreadPoolExecutor(16) as ex:
+                res = list(ex.map(lambda pid: sh('%s check %s --tier quick --evidence-dir %s' % (PY, pid, ev), cwd=VERIF, timeout=600), props))
+            for pid, (rc, out) in zip(props, res):
                 if rc == 1:
                     vf = os.path.join(ev, '%s.violations.json' % pid)
                     caught[pid] = ['%s %s :: %s' % (f['rule'], f['where'], f['construct']) for f in json.load(open(vf))][:6] \
